@@ -307,6 +307,12 @@ pub fn env_start(seed: u64, real_base_s: u64, jumpy: u32) {
     ENTROPY_DRAWS.store(0, Ordering::SeqCst);
     ENV_ON.store(true, Ordering::SeqCst);
 }
+/// As `env_start`, but with separate seeds for the entropy stream and the clock (C23 varies one
+/// dimension at a time).
+pub fn env_start_split(entropy_seed: u64, clock_seed: u64, real_base_s: u64, jumpy: u32) {
+    env_start(clock_seed, real_base_s, jumpy);
+    ENV_SEED.store(entropy_seed, Ordering::SeqCst);
+}
 pub fn env_stop() {
     ENV_ON.store(false, Ordering::SeqCst);
 }
